@@ -113,13 +113,17 @@ Definition lstep (s : lstate) (call : lcall) : bool * lstate :=
       match aget (l_clients s) c with
       | Some x =>
           if lc_active x then
-            match find_doc (lc_docs x) d with
-            | Some _ => (false, s)
-            | None =>
+            let fresh :=
                 let g := cur_gen s d in
                 let g' := if is_removed s d g then (g + 1)%N else g in
                 (true, mkLS (aset (l_clients s) c (mkLC true (set_doc (lc_docs x) (mkLD d g' DAttached))))
-                            (aset (l_gens s) d g') (l_removed s) (wadd (l_writes s) d g' n))
+                            (aset (l_gens s) d g') (l_removed s) (wadd (l_writes s) d g' n)) in
+            match find_doc (lc_docs x) d with
+            | Some dd =>
+                (* the residue of an attach that failed half-way: the local Document was never
+                   attached, attaching it again is an ordinary attach *)
+                if dstatus_eqb (ld_status dd) DAttaching then fresh else (false, s)
+            | None => fresh
             end
           else (false, s)
       | None => (false, s)
